@@ -150,6 +150,7 @@ def strategy(ctx):
     # half of the interfaces come from the strict slice (every param has a non-None default, Literals have >=2 members)
     return st.one_of(
         gen_ir.interface("common", min_params=1, max_params=5, returns=False, min_literal=1),
+        gen_ir.interface("common", min_params=1, max_params=5, returns=False, min_literal=2, doc=gen_ir.mixed_descr, name_strategy=gen_ir.rich_names),
         gen_ir.interface("common", min_params=1, max_params=5, returns=False, min_literal=2).map(_force_defaults),
     )
 
